@@ -48,7 +48,7 @@ def explore(run, scale=1):
     n = N[run.tier] * scale
     for i in range(n):
         ring = (i % 4 == 0)
-        p = gen_wasm.gen_prog(rng, dict(ring=ring, uint=(i % 7 == 3)))
+        p = gen_wasm.gen_prog(rng, dict(ring=ring, uint=(i % 7 == 3), effects=(i % 3 == 1)))
         src = p.src()
         opt = (i % 2 == 1)
         res = wasmrun.compile_wasm(src, optimize=opt)
@@ -108,6 +108,45 @@ def explore(run, scale=1):
                 ok = wt[0] == "ok" and isinstance(vm[1], int) and wt[1] == wasmrun.to_i32(vm[1])
             if not ok:
                 run.fail("agree", dict(inp, vm=str(vm[1]), wasm=wv), "f(%s): VM returns %r, the WebAssembly module %s (%s)\n%s" % (args, vm[1], wv, wt[0], src), key="agree:" + p.ret)
+    # every operator on every scalar type (and the statement forms with side effects on parameters): translated => must agree
+    for src, ptys, ret in gen_wasm.opgrid():
+        for opt in (False, True):
+            res = wasmrun.compile_wasm(src, optimize=opt)
+            if res[0] != "ok":
+                run.case((src, opt, "grid"), nontrivial=False); run.count("grid:refused"); continue
+            run.count("grid:emitted")
+            ok_tm, msg = wasmrun.wasmtime_validates(res[2])
+            if not ok_tm:
+                run.case((src, opt, "grid"), nontrivial=True)
+                run.fail("dropped", dict(source=src, optimize=opt), "a translated program is an invalid module (%s)\n%s" % (msg, src), key="dropped:invalid"); continue
+            for a, b in gen_wasm.GRID_ARGS[ptys[0]]:
+                vm = implrun.new_vm(implrun.link([res[1].IRModule]))
+                r = implrun.invoke(vm, "f", dict(a=a, b=b), limit=3)
+                conv = lambda v, t: float(v) if t == "float" else (wasmrun.to_i32(v) if t == "uint" else v)
+                wt = wasmrun.wasmtime_call(res[2], "f", [conv(a, ptys[0]), conv(b, ptys[1])])
+                inp = dict(source=src, optimize=opt, args=[a, b])
+                # the VM result must be representable in the declared 32-bit type to be compared
+                if r[0] == "ok":
+                    v = r[1]
+                    repable = (ret == "float" and isinstance(v, float) and f_exact(v)) or (ret == "int" and isinstance(v, int) and -2**31 <= v < 2**31) or \
+                              (ret == "uint" and isinstance(v, int) and 0 <= v < 2**32)
+                    # arithmetic on the way may still have wrapped; single operations on representable inputs are exact except float rounding
+                    if ret == "float" and ptys[0] == "float" and not f_exact(v): repable = False
+                    run.case((src, opt, a, b), nontrivial=repable)
+                    if not repable:
+                        run.count("grid:outside-domain"); continue
+                    run.count("grid:judged")
+                    same = wt[0] == "ok" and ((ret == "float" and isinstance(wt[1], float) and wasmrun.f32_bits(wt[1]) == wasmrun.f32_bits(v)) or
+                                              (ret != "float" and isinstance(wt[1], int) and wt[1] == wasmrun.to_i32(v)))
+                    if not same:
+                        run.fail("agree", dict(inp, vm=str(v), wasm=str(wt)), "f(%s, %s): VM returns %r, the WebAssembly module %s\n%s" % (a, b, v, wt, src), key="agree:grid:" + ptys[0])
+                elif r[0] == "divzero":
+                    run.case((src, opt, a, b), nontrivial=True); run.count("grid:div-by-zero")
+                    if ptys[0] != "float" and wt[0] != "trap":
+                        run.fail("agree", inp, "f(%s, %s): VM raises ZeroDivisionError, the WebAssembly module returns %s\n%s" % (a, b, wt, src), key="agree:grid:div0")
+                else:
+                    run.case((src, opt, a, b), nontrivial=True)
+                    run.fail("agree", dict(inp, vm=str(r[:2])), "f(%s, %s): the VM fails (%s) on a program the backend translated\n%s" % (a, b, r[:2], src), key="agree:vm-" + r[0])
     # programs the backend cannot translate
     uns = [(s, "list") for s in gen_wasm.UNSUPPORTED] + [(e["src"], "corpus") for e in wholelang.ENTRIES]
     for _ in range(60 if run.tier == "quick" else 1500):
